@@ -4,7 +4,11 @@
 (* what the specification predicts for it: the declarative verdict, the type *)
 (* and index of every parameter and global, the output of the program when   *)
 (* it is accepted, the number of body orders the as-built resolver may use   *)
-(* and the set of first errors it may report over those orders (C19a); for    *)
+(* and the set of first errors it may report over those orders (C19a); the    *)
+(* programs of family "forms" carry the form of every argument of a call or   *)
+(* of length() (prog...args[j].fm, prog...v.fm: "v" bare variable, "p" (x),   *)
+(* "e" x "", "x" x[length(x)]; sc = "C" a constant) and the predicted output   *)
+(* accounts for what evaluating the expression does (Resolver!ExprVal); for   *)
 (* family "collect" the sites of the collected errors and the prediction that *)
 (* every parse reports the same one.                                           *)
 EXTENDS ResolverGen, Json
@@ -13,10 +17,12 @@ CONSTANTS Family
 
 Slots == CASE Family = "usage" -> UsageSlots [] Family = "multi" -> MultiSlots
            [] Family = "frames" -> FramesSlots [] Family = "collect" -> CollectSlots
+           [] Family = "forms" -> FormsSlots
 Opts(k, chosen) == CASE Family = "usage" -> SlotOpts(Slots[k], chosen) [] Family = "multi" -> MultiOpts(Slots[k])
                      [] Family = "frames" -> FramesOpts(Slots[k]) [] Family = "collect" -> CollectOpts(Slots[k], chosen)
+                     [] Family = "forms" -> FormsOpts(Slots[k])
 Program(chosen) == CASE Family = "usage" -> UsageProgram(chosen) [] Family = "multi" -> MultiProgram(chosen)
-                     [] Family = "frames" -> FramesProgram(chosen)
+                     [] Family = "frames" -> FramesProgram(chosen) [] Family = "forms" -> FormsProgram(chosen)
                      [] Family = "collect" -> [funcs |-> <<>>, main |-> <<>>, sites |-> CollectSites(chosen)]
 
 \* prog is a state variable so that TLC holds the assembled program as an explicit value
